@@ -14,9 +14,9 @@ dir=.; case "$pkgline" in decor*) dir=decor;; cwriter*) dir=cwriter;; internal*)
 race=$(python3 -c "import json;print(json.load(open('$d/meta.json')).get('race_flag','') or '')" 2>/dev/null); [ "$race" = "True" ] && race=-race; [ "$race" = "False" ] && race=""
 suite=$(go build ./... 2>&1 && timeout 900 go test -vet=off -count=1 ./... 2>&1 | grep -E "^(ok|FAIL|---)" | tr '\n' ' ')
 cp $demo $dir/zz_demo_test.go
-mut=$(timeout 600 go test $race -vet=off -count=1 -timeout 300s -run 'Demo|ZZ' ./$dir 2>&1 | grep -E "^(--- FAIL|FAIL|ok|panic|WARNING: DATA RACE)" | head -3 | tr '\n' ' ')
+mut=$(timeout 600 go test $race -vet=off -count=1 -timeout 300s -run 'Demo|ZZ|TestC[0-9][0-9]' ./$dir 2>&1 | grep -E "^(--- FAIL|FAIL|ok|panic|WARNING: DATA RACE)" | head -3 | tr '\n' ' ')
 git reset -q --hard HEAD; cp $demo $dir/zz_demo_test.go
-clean=$(timeout 600 go test $race -vet=off -count=2 -timeout 300s -run 'Demo|ZZ' ./$dir 2>&1 | tail -n 2 | tr '\n' ' ')
+clean=$(timeout 600 go test $race -vet=off -count=2 -timeout 300s -run 'Demo|ZZ|TestC[0-9][0-9]' ./$dir 2>&1 | tail -n 2 | tr '\n' ' ')
 cd /; git -C /repo worktree remove --force $wt
 ok=1
 echo "$suite" | grep -q FAIL && ok=0
